@@ -7,6 +7,10 @@ def prepare(run, prop, module, theorems, need_calc=False):
     audit the property's theorems.  Fills the proof part of the coverage and
     reports broken obligations; returns the list of problems (strings)."""
     vlib.build_harness()
+    # translator step: constants and operator tables are re-read from the source and the Coq
+    # development is re-checked against them (coq/CheckConsts.v)
+    import gen_consts
+    gen_consts.generate()
     if need_calc:
         vlib.build_calc()
     vlib.build_coq(clean=(run.tier == "thorough" and False))
